@@ -713,7 +713,7 @@ Proof.
   - unfold run_tx. destruct (validate_basic m); [|discriminate].
     destruct (handle _ m) as [x| |] eqn:H; try discriminate. intros [= <-].
     eapply kinv_handle; [|exact H]. eapply (kinv_updates s); [keeps_solve|exact Hi].
-  - intros [= <-]. apply (fold_left_inv kinv).
+  - destruct (forallb pchange_valid _); [|discriminate]. intros [= <-]. apply (fold_left_inv kinv).
     + intros x c Hx. pose proof (apply_pchange_keeps x c). eapply kinv_other; eauto.
     + eapply (kinv_updates s); [keeps_solve|exact Hi].
   - destruct (end_block _) as [se| |] eqn:H; try discriminate. intros [= <-].
